@@ -77,7 +77,10 @@ def make_spy_ranker(log, inner_name, script):
                 self.inner.reset(emitter, archive)
             log.append(("ranker_reset", emitter, archive))
 
-    return SpyRanker
+    class SpyRankerChild(SpyRanker):
+        """users subclass rankers and INHERIT reset(): the emitters must call it all the same"""
+
+    return SpyRankerChild if (script or {}).get("inherit_reset", True) else SpyRanker
 
 
 def make_spy_archive(log):
